@@ -54,6 +54,10 @@ def gen_name(rng, kind=None):
         return []
     if kind == "ascii":
         return cps(rng.choice(ASCII_NAMES)) if rng.random() < 0.6 else [rng.randrange(0x20, 0x7F) for _ in range(rng.randrange(1, 9))]
+    if rng.random() < 0.2:
+        # valid UTF-8 that is NOT in a Unicode normal form (decomposed accents, compatibility singletons, Hangul jamo): names are
+        # sequences of code points, stored and returned as they are
+        return list(rng.choice([[0x65, 0x301], [0x41, 0x30A, 0x6E], [0x212B], [0x2126, 0x61], [0x1100, 0x1161], [0x6F, 0x308, 0x301], [0xFB01, 0x78]]))
     return [rng.choice(UNI_POOL) for _ in range(rng.randrange(1, 6))]
 
 
@@ -297,6 +301,57 @@ def impl_write(case):
         return ["ok", list(buf.getvalue())]
     except Exception as e:
         return ["err", type(e).__name__]
+
+
+def rewrite_after_edit(case):
+    """Write the pose, edit its header IN PLACE without changing any count (a point renamed, a limb re-wired, a colour changed),
+    write the SAME objects again: the second file must be the file of the edited pose (equal to writing a freshly built pose
+    with the same edits).  -> None or a description of the difference"""
+    import copy
+    try:
+        pose = build_pose(case)
+        b1 = io.BytesIO()
+        pose.write(b1)
+    except Exception:
+        return None                     # refused: nothing to re-write
+    case2 = copy.deepcopy({k: v for k, v in case.items() if not k.startswith("_")})
+    edited = False
+    for ci, c in enumerate(pose.header.components):
+        d = case2["comps"][ci]
+        if len(c.points) and len(d["points"][0]) < 1000:
+            c.points[0] = c.points[0] + "~"
+            d["points"][0] = d["points"][0] + [0x7E]
+            edited = True
+        if len(c.limbs):
+            a, b = int(c.limbs[0][0]), int(c.limbs[0][1])
+            c.limbs[0] = (b, a)
+            d["limbs"][0] = [b, a]
+            edited = True
+        if len(c.colors):
+            c.colors[0] = (3, 2, 1)
+            d["colors"][0] = [3, 2, 1]
+            edited = True
+    if not edited:
+        return None
+    def w(p):
+        try:
+            b = io.BytesIO()
+            p.write(b)
+            return ["ok", b.getvalue()]
+        except Exception as e:
+            return ["err"]
+    got = w(pose)
+    try:
+        want = w(build_pose(case2))
+    except Exception:
+        want = ["err"]
+    if got != want:
+        if got[0] != want[0]:
+            return "second write of the edited pose %s, a fresh pose with the same header %s" % (got[0], want[0])
+        i = next((k for k in range(min(len(got[1]), len(want[1]))) if got[1][k] != want[1][k]), min(len(got[1]), len(want[1])))
+        return "second write of the pose (header edited in place after the first write) differs from the file of the edited pose at byte %d%s" % (
+            i, " - it still equals the first file" if got[1] == b1.getvalue() else "")
+    return None
 
 
 def dump_pose(pose):
